@@ -87,7 +87,8 @@ Print Assumptions axfr_style_ixfr_converges.
 
 (* General form (RFC 1995 / RFC 5936 do not fix the order of the records inside a deletion section,
    an addition section or an AXFR body): ixfr_response / axfr_response allow ANY permutation of the
-   records of every section / of the body.  ixfr_converges, axfr_converges and
+   deleted records of every section, and any order AND repetition of added records / body records
+   (same_set) - so swapping two records of a section and duplicating an added record are benign.  ixfr_converges, axfr_converges and
    axfr_style_ixfr_converges above are the instances with the canonical order. *)
 Theorem ixfr_converges_any_order : forall v0 chain z0 recs ws,
   chain_ok v0 chain -> zeq z0 (zone_of v0) -> ixfr_response v0 chain recs -> chunking tIXFR recs ws ->
@@ -170,6 +171,16 @@ Theorem ixfr_question_fault_rejected : forall v0 chain z0 ws1 w' ws2 q qn qt qs,
 Proof. exact XfrFault.ixfr_question_fault_rejected. Qed.
 Print Assumptions ixfr_question_fault_rejected.
 
+(* UDP IXFR that neither completes nor is the bare-SOA "use TCP" answer *)
+Theorem udp_incomplete_rejected : forall v0 chain z0 w a q,
+  chain_ok v0 chain -> zeq z0 (zone_of v0) -> header_ok tIXFR w ->
+  a <> [] -> q <> [] ->
+  w_records w = soa_rr (last chain v0) :: a ->
+  soa_rr (last chain v0) :: a ++ q = ixfr_stream v0 chain ->
+  forall ws, inbound_xfr z0 tIXFR (Some (v_serial v0)) true (w :: ws) = (Error eUDPEnd z0, 0%nat).
+Proof. exact XfrFault.udp_incomplete_rejected. Qed.
+Print Assumptions udp_incomplete_rejected.
+
 (* the outcome side of the single-fault lemma, for ANY input (hence any fault): an error leaves the
    zone unchanged (error_leaves_zone); a completed transfer leaves the zone untouched (up-to-date
    answer) or holding the SOA announced by the first record - the server's serial *)
@@ -239,9 +250,8 @@ Example ex_axfr_runs :
 Proof. vm_compute. reflexivity. Qed.
 
 Example ex_response_any_order :
-  axfr_response ex_v2 [soa_rr ex_v2; mkRR 2 1 16 0 0 9; mkRR 0 1 2 0 3600 3; mkRR 0 1 2 0 3600 2; soa_rr ex_v2].
+  axfr_response ex_v2 [soa_rr ex_v2; mkRR 2 1 16 0 0 9; mkRR 0 1 2 0 3600 3; mkRR 0 1 2 0 3600 2; mkRR 2 1 16 0 0 9; soa_rr ex_v2].
 Proof.
-  exists [mkRR 2 1 16 0 0 9; mkRR 0 1 2 0 3600 3; mkRR 0 1 2 0 3600 2]. split; [|reflexivity].
-  cbn. apply Permutation_sym. eapply perm_trans; [apply perm_skip, perm_swap|]. eapply perm_trans; [apply perm_swap|].
-  apply perm_skip, perm_swap.
+  exists [mkRR 2 1 16 0 0 9; mkRR 0 1 2 0 3600 3; mkRR 0 1 2 0 3600 2; mkRR 2 1 16 0 0 9]. split; [|reflexivity].
+  intros r. cbn. intuition.
 Qed.
